@@ -54,6 +54,10 @@ def space_contains_table(space, nj, nm):
     return [[bool(space.contains(np.array([j, m]))) for m in range(-1, nm)] for j in range(nj)]
 
 
+class EnvConstructionFailed(Exception):
+    """SingleJobShopGraphEnv(...) raised for a configuration the scenarios consider valid (reported, not a crash)."""
+
+
 class ESession(DSession):
     """One trace = one single-instance environment."""
 
@@ -73,15 +77,16 @@ class ESession(DSession):
         self.header = {}
         if env is None:
             self.instance = model.build_instance(inst)
-            graph = build_graph(cfg["builder"], self.instance)
-            env = SingleJobShopGraphEnv(
-                job_shop_graph=graph,
+            out, env = _outcome(lambda: SingleJobShopGraphEnv(
+                job_shop_graph=build_graph(cfg["builder"], self.instance),
                 feature_observer_configs=_feature_configs(cfg["features"]),
                 reward_function_config=_reward_config(cfg["reward"]),
                 graph_updater_config=_updater_config(cfg["rm_machines"], cfg["rm_jobs"]),
                 ready_operations_filter=model.make_filter(self.filt),
                 use_padding=cfg["use_padding"],
-            )
+            ))
+            if out != "ok":
+                raise EnvConstructionFailed(out)
             self.space_owner = env
         else:
             self.instance = instance
